@@ -32,10 +32,11 @@ COMPONENTS["real"] = C09.COMPONENTS["real"] + [
     "breezy.git.tree.InterGitTrees (dulwich tree_changes + RenameDetector)",
 ]
 ASSUMPTIONS = [
-    "the generic comparison is InterInventoryTree.iter_changes instantiated directly; for git trees no second implementation exists, so only the consistency oracles (filtered result is part of the unfiltered one and covers the filter, valid delta, apply = target) are evaluated",
-    "representation that is normalised away: order; executable None vs False on the side where the entry does not exist; the executable flag and the kind of unversioned entries are compared, their (None) ids are not",
-    "the working-tree states are the ones the C09 model can reach (see C09 assumptions: guarded states that hit reported defects are left out)",
-    "trees are read-locked for the whole comparison",
+    "the generic comparison is InterInventoryTree.iter_changes instantiated directly (breezy.tree.InterTree.iter_changes is abstract; this is the code InterDirStateTree and InterCHKRevisionTree fall back to); for git trees no second implementation exists, so only the consistency oracles are evaluated there (a filtered result is the part of the unfiltered one that the filter covers; per-path records applied to the source give the target)",
+    "representation that is normalised away: order; executable None vs False where the entry does not exist; only the topmost unversioned entry is compared and, with a filter, only unversioned entries literally inside the filter; with a filter and include_unchanged, unchanged entries outside the filter (parents that were merely evaluated) are ignored",
+    "valid-delta oracle = every entry hangs off a directory that is in the resulting tree (the property speaks of the parents that are needed); two entries ending on one path (old occupant outside the filter) are counted (probe filtered_name_collision), not judged",
+    "differences that are defects already reported (checks/treesim.py GUARDS) are removed from the comparison while the guard is on; lifted as in C09 once known_findings.json has the entry",
+    "the working-tree states are the ones the C09 model can reach (see C09 assumptions); trees are read-locked for the whole comparison",
 ]
 STEP_CAP = 400000
 ISOLATION = "thread"
@@ -119,6 +120,39 @@ def blank_unchanged_old_path(recs):
     return out
 
 
+def equalise(sim, got, ref, spec, inc, unv, impl, guards, full, a):
+    """Remove from both normalised results what is representation (always) or a reported
+    defect whose guard is on; what is left must be equal."""
+    if spec is not None and unv:
+        # unversioned entries are selected by literal path in the generic code and by related
+        # (renamed) path in the dirstate: compare inside the filter only
+        got = {c for c in got if not (c[0] == "u" and not any(T.inside(s, c[1]) for s in spec))}
+        ref = {c for c in ref if not (c[0] == "u" and not any(T.inside(s, c[1]) for s in spec))}
+    if spec is not None and unv and "bzr_filter_unversioned_at_removed" in guards:
+        got = {c for c in got if not (c[0] == "u" and a.is_versioned(c[1]))}
+        ref = {c for c in ref if not (c[0] == "u" and a.is_versioned(c[1]))}
+    if inc and impl == "InterCHKRevisionTree" and "chk_unchanged_old_path" in guards:
+        got, ref = blank_unchanged_old_path(got), blank_unchanged_old_path(ref)
+    if spec is not None and "generic_filter_half_record" in guards:
+        broken = {c[1] for c in ref if c[0] == "v" and not c[4][0] and c[2][0] is not None}
+        if broken:
+            sim.probe("generic_half_record")
+            got = {c for c in got if not (c[0] == "v" and c[1] in broken)}
+            ref = {c for c in ref if not (c[0] == "v" and c[1] in broken)}
+    if spec is not None and impl == "InterDirStateTree" and "dirstate_filter_overinclusion" in guards:
+        more = got - ref
+        if more and more <= full[inc, unv]:
+            sim.probe("dirstate_filter_overinclusion")
+            got = got - more
+    if spec is not None and inc and "filter_unchanged_parent" in guards:
+        got, ref = drop_outside(got, spec), drop_outside(ref, spec)
+    if spec is not None and inc:
+        # unchanged entries outside the filter (parents that were "evaluated for changes
+        # too") carry no information: one implementation lists them
+        got, ref = drop_unchanged_outside(got, spec), drop_unchanged_outside(ref, spec)
+    return got, ref
+
+
 def _short(s, n=5):
     return sorted(s, key=repr)[:n]
 
@@ -200,11 +234,13 @@ def paths_of(ent):
 
 
 class Ctx:
-    def __init__(self, sim, fl, where):
+    def __init__(self, sim, fl, where, risky=None):
         self.sim, self.fl, self.where = sim, fl, where
+        self.territory = None  # reported defect (lifted guard) that explains the failure
+        self.risky = risky or {}  # filter (tuple) -> guard that would have pruned it
 
     def fail(self, tag, impl, detail, params):
-        self.sim.fail(tag, ["C10", tag, self.fl, impl], "%s; %s: %s" % (self.where, json.dumps(params), detail))
+        T.fail(self.sim, "C10", tag, [self.fl, impl], "%s; %s: %s" % (self.where, json.dumps(params), detail), self.territory)
 
 
 def compare_pair(ctx, a, b, filters, plan_names, is_wt, guards=frozenset()):
@@ -230,6 +266,8 @@ def compare_pair(ctx, a, b, filters, plan_names, is_wt, guards=frozenset()):
                     try:
                         raw = list(InterTree.get(a, b).iter_changes(inc, spec, want_unversioned=unv, require_versioned=False))
                     except Exception as e:  # noqa: BLE001
+                        if spec is not None and tuple(spec) in ctx.risky:
+                            ctx.territory = ctx.risky[tuple(spec)]
                         ctx.fail("optimised_raised", impl, "%s raised %r" % (impl, e), params)
                     try:
                         raw_ref = list(InterInventoryTree(a, b).iter_changes(inc, spec, want_unversioned=unv, require_versioned=False))
@@ -242,37 +280,19 @@ def compare_pair(ctx, a, b, filters, plan_names, is_wt, guards=frozenset()):
                                 sim.probe("duplicate_entries")
                             else:
                                 dup = sorted({i for i in ids if ids.count(i) > 1})
+                                if spec is not None:
+                                    ctx.territory = "bzr_filter_duplicates"
                                 ctx.fail("duplicate_entries", who, "%s reports %r more than once" % (who, dup[:4]), params)
-                    got, ref = norm_inv(raw, b), norm_inv(raw_ref, b)
-                    got_all, ref_all = got, ref
-                    if spec is not None and unv:
-                        # unversioned entries are selected by literal path in the generic code and
-                        # by related (renamed) path in the dirstate: compare inside the filter only
-                        got = {c for c in got if not (c[0] == "u" and not any(T.inside(s, c[1]) for s in spec))}
-                        ref = {c for c in ref if not (c[0] == "u" and not any(T.inside(s, c[1]) for s in spec))}
-                    if spec is not None and unv and "bzr_filter_unversioned_at_removed" in guards:
-                        got = {c for c in got if not (c[0] == "u" and a.is_versioned(c[1]))}
-                        ref = {c for c in ref if not (c[0] == "u" and a.is_versioned(c[1]))}
-                    if inc and impl == "InterCHKRevisionTree" and "chk_unchanged_old_path" in guards:
-                        got, ref = blank_unchanged_old_path(got), blank_unchanged_old_path(ref)
-                    if spec is not None and "generic_filter_half_record" in guards:
-                        broken = {c[1] for c in ref if c[0] == "v" and not c[4][0] and c[2][0] is not None}
-                        if broken:
-                            sim.probe("generic_half_record")
-                            got = {c for c in got if not (c[0] == "v" and c[1] in broken)}
-                            ref = {c for c in ref if not (c[0] == "v" and c[1] in broken)}
-                    if spec is not None and impl == "InterDirStateTree" and "dirstate_filter_overinclusion" in guards:
-                        more = got - ref
-                        if more and more <= full[inc, unv]:
-                            sim.probe("dirstate_filter_overinclusion")
-                            got = got - more
-                    if spec is not None and inc and "filter_unchanged_parent" in guards:
-                        got, ref = drop_outside(got, spec), drop_outside(ref, spec)
-                    if spec is not None and inc:
-                        # unchanged entries outside the filter (parents that were "evaluated for
-                        # changes too") carry no information: one implementation lists them
-                        got, ref = drop_unchanged_outside(got, spec), drop_unchanged_outside(ref, spec)
+                    got_all, ref_all = norm_inv(raw, b), norm_inv(raw_ref, b)
+                    got, ref = equalise(sim, got_all, ref_all, spec, inc, unv, impl, guards, full, a)
                     if got != ref:
+                        # which lifted guard (reported defect) explains the difference?
+                        lifted = sorted(set(T.GUARDS) - set(guards))
+                        for g in lifted + ["+".join(lifted)]:
+                            x, y = equalise(sim, got_all, ref_all, spec, inc, unv, impl, set(guards) | set(g.split("+")), full, a)
+                            if lifted and x == y:
+                                ctx.territory = g
+                                break
                         tag = "filtered_differs" if spec is not None else "unfiltered_differs"
                         ctx.fail(tag, impl, "only %s: %r; only generic: %r" % (impl, _short(got - ref), _short(ref - got)), params)
                     if spec is None:
@@ -386,14 +406,19 @@ def compare_step(sim, tree, model, i, op):
     if i % plan.get("every", 1) != 0 and i != len(plan["ops"]) - 1:
         return
     fl = model.flavour
-    if "bzr_dir_replaced" in model.guards and model.dir_replaced():
-        sim.probe("cmp_skipped_guard")
-        return
+    if model.dir_replaced():
+        if "bzr_dir_replaced" in model.guards:
+            sim.probe("cmp_skipped_guard")
+            return
+        sim.notes.setdefault("territory", "bzr_dir_replaced")
     filters = [f for f in (model.usable_filter(f) for f in plan.get("filters", [])) if f]
+    strict = model.copy()
+    strict.guards = set(T.GUARDS)
+    risky = {tuple(f): "bzr_enotdir_filter" for f in filters if strict.usable_filter(f) != f}
     with tree.lock_read():
         basis = tree.basis_tree()
         with basis.lock_read():
-            n, d = compare_pair(Ctx(sim, fl, "step %d (%s), basis vs working tree" % (i, op["o"])), basis, tree, filters, plan.get("names", []), True, model.guards)
+            n, d = compare_pair(Ctx(sim, fl, "step %d (%s), basis vs working tree" % (i, op["o"]), risky), basis, tree, filters, plan.get("names", []), True, model.guards)
     st["evals"] += n
     st["differed"] = st["differed"] or d
     sim.event("cmp", i, n)
@@ -423,10 +448,12 @@ def compare_history(sim, tree, model):
 
 def execute(sim, plan):
     C09.warm_extra = compare_step
+    sim.notes["prop"] = "C10"
     tree, model = C09.execute(sim, plan, compare_step)
     ok = sim.nontrivial
     compare_history(sim, tree, model)
     st = sim.notes.get("c10", {"evals": 0, "differed": False})
     sim.notes["evaluations"] = max(1, st["evals"])
     sim.nontrivial = bool(ok and st["differed"])
-    del sim.notes["c10"]
+    for k in ("c10", "prop", "territory"):
+        sim.notes.pop(k, None)
